@@ -7,6 +7,8 @@ from concurrent.futures import ThreadPoolExecutor
 
 os.chdir("/verif")
 props = [c["property_id"] for c in json.load(open("MANIFEST.json"))["checks"]]
+if os.environ.get("REGRESS_PROPS"):  # restrict the checks that are run (results file is then not rewritten)
+    props = [p for p in props if p in os.environ["REGRESS_PROPS"].split(",")]
 only = set(sys.argv[1:])
 if subprocess.run(["git", "-C", "/repo", "diff", "--quiet"]).returncode != 0:
     sys.exit("/repo is dirty")
@@ -28,7 +30,7 @@ for d in sorted(glob.glob("/verif/refactors/C*-*/")):
         continue
     subprocess.run(["git", "-C", "/repo", "apply", d + "patch.diff"], check=True)
     try:
-        with ThreadPoolExecutor(7) as ex:
+        with ThreadPoolExecutor(14) as ex:
             out = list(ex.map(run, props))
     finally:
         subprocess.run(["git", "-C", "/repo", "checkout", "--", "."], check=True)
@@ -37,6 +39,6 @@ for d in sorted(glob.glob("/verif/refactors/C*-*/")):
     results[rid] = alarms
     bad += 1 if alarms else 0
     print(("ok   " if not alarms else "ALARM"), rid, {p: a["exit"] for p, a in alarms.items()})
-if not only:
+if not only and not os.environ.get("REGRESS_PROPS"):
     json.dump(results, open("/verif/refactors/RESULTS.json", "w"), indent=1)
 print("refactorings with an alarm:", bad, "of", len(results))
